@@ -720,6 +720,68 @@ def fn_linked_sources(case):
         shutil.rmtree(tdir, ignore_errors=True)
 
 
+def fn_defaults(case):
+    """every optional argument left out: the documented defaults are lib prefix / libdir 'lib' and include_version=True,
+    in every method that takes them, and what they return carries the documented keys."""
+    from htmltools import HTMLDependency, HTMLDocument, HTMLTextDocument, Tag, TagList
+    api, source_kind = case
+    viols = []
+    tdir = tempfile.mkdtemp(prefix="c", dir=os.path.join(_FX["root"], "t"))
+    try:
+        dep = make_dep([FILES[1]], STYLE, False, source_kind)
+        name, ver = IDENT["safe"]
+        local = source_kind in ("dir", "package")
+        want_base = ("lib/" + name + "-" + ver) if local else dep_href({"name": "x", "version": "1", "source": dep.source}, "lib", True)
+        want_src = join_url(want_base, pct_encode(FILES[1]))
+        want_href = join_url(want_base, pct_encode(STYLE))
+
+        def bad(what, got):
+            viols.append((f"defaults:{api}", f"{api} with its optional arguments left out: {what}", {"observed": got}))
+        if api == "source_path_map":
+            m = dep.source_path_map()
+            if m != dep.source_path_map(lib_prefix="lib", include_version=True) or (local and m["href"] != want_base):
+                bad("not lib prefix 'lib' with the version", m)
+        elif api == "as_dict":
+            d = dep.as_dict()
+            if d != dep.as_dict(lib_prefix="lib", include_version=True):
+                bad("differs from lib_prefix='lib', include_version=True", repr(d)[:300])
+            if d.get("name") != name or str(d.get("version")) != ver or [x.get("src") for x in d.get("script", [])] != [want_src] \
+                    or [x.get("href") for x in d.get("stylesheet", [])] != [want_href] or "meta" not in d or "head" not in d:
+                bad("name / version / script / stylesheet / meta / head entries are not the dependency's", repr(d)[:300])
+        elif api == "as_html_tags":
+            a = dep.as_html_tags().get_html_string()
+            if a != dep.as_html_tags(lib_prefix="lib", include_version=True).get_html_string() or ('src="' + _html.escape(want_src)) not in a:
+                bad("not the lib/name-version URLs", a)
+        elif api in ("HTMLDocument.render", "HTMLTextDocument.render"):
+            if api == "HTMLDocument.render":
+                doc = HTMLDocument(Tag("p", "x"), dep)
+            else:
+                doc = HTMLTextDocument("<html><head>HERE</head><body></body></html>", deps=[dep], deps_replace_pattern="HERE")
+            a = doc.render()["html"]
+            if a != doc.render(lib_prefix="lib", include_version=True)["html"] or ('src="' + _html.escape(want_src)) not in a:
+                bad("not the lib/name-version URLs", a)
+        elif api == "copy_to":
+            dep.copy_to(os.path.join(tdir, "out"))
+            if local and not os.path.isfile(os.path.join(tdir, "out", name + "-" + ver, FILES[1])):
+                bad("files are not under <path>/name-version", [x if isinstance(x, str) else x[0] for x in listing(tdir)])
+        else:
+            file = os.path.join(tdir, "index.html")
+            if api == "HTMLDocument.save_html":
+                ret = HTMLDocument(Tag("p", "x"), dep).save_html(file)
+            elif api == "Tag.save_html":
+                ret = Tag("div", "x", dep).save_html(file)
+            else:
+                ret = TagList("x", Tag("span", dep)).save_html(file)
+            urls = saved_urls(file)
+            if ret != file or urls != [want_href, want_src]:
+                bad("URLs are not lib/name-version/...", urls)
+            if local and not os.path.isfile(os.path.join(tdir, "lib", name + "-" + ver, FILES[1])):
+                bad("files are not under lib/name-version next to the html file", [x if isinstance(x, str) else x[0] for x in listing(tdir)])
+        return (True, api, viols, 1)
+    finally:
+        shutil.rmtree(tdir, ignore_errors=True)
+
+
 def fn_pkglayout(case):
     """package sources in unusual layouts: the package's __init__.py is a symbolic link to a file kept
     elsewhere (a 'link farm'); the dependency's files are the ones in the package directory."""
@@ -852,6 +914,10 @@ def plan(tier):
                         Const([False, True]), Const(["document", "tag"])),
              note="source files that are relative symbolic links to files outside the copied directory (also a linked sub-directory "
                   "under all_files) x output path given directly / through a symlinked directory / as <symlink>/../index.html"),
+        dict(kind="space", name="optional-arguments-left-out", fn=fn_defaults,
+             space=Prod(Const(["source_path_map", "as_dict", "as_html_tags", "HTMLDocument.render", "HTMLTextDocument.render", "copy_to",
+                               "HTMLDocument.save_html", "Tag.save_html", "TagList.save_html"]), Const(["dir", "package", "url", "none"])),
+             note="9 entry points x 4 source kinds, called without lib_prefix / libdir / include_version: 'lib' and the version"),
         dict(kind="space", name="package-layouts", space=pkglay, fn=fn_pkglayout, serial=True,
              note="package whose __init__.py is a symbolic link to a file kept elsewhere (with / without a stale "
                   "same-named file next to the link target)"),
